@@ -147,6 +147,7 @@ func driveWire(c *ctx) {
 		})
 		c.E("cmp.Parse", "in", hx(b), "withv", withv, "ok", ok, "r", rh, "s", sh, "v", v, "rebuilt", reb, "panic", pn)
 	}
+	var keptSpki []keptSig
 	spki := func(b []byte, cls string) {
 		var (
 			ok       bool
@@ -171,6 +172,19 @@ func driveWire(c *ctx) {
 			}
 		})
 		c.E("spki.Parse", "in", hx(b), "ok", ok, "unc", unc, "rebuilt", reb, "panic", pn, "cls", cls, "unc2", unc2, "reb2", reb2, "pt2", pt2)
+		// encodings handed out earlier are the caller's: later encoding calls (of other keys) never change them
+		for _, k := range keptSpki {
+			c.E("sig.Stable", "then", k.then, "now", hx(k.sig), "later_enc", "spki")
+		}
+		if ok {
+			if k2, err := secec.ParseASN1PublicKey(append([]byte{}, b...)); err == nil {
+				out := k2.ASN1Bytes()
+				keptSpki = append(keptSpki, keptSig{out, hx(out)})
+				if len(keptSpki) > 2 {
+					keptSpki = keptSpki[1:]
+				}
+			}
+		}
 	}
 
 	// ---- values
@@ -178,6 +192,12 @@ func driveWire(c *ctx) {
 		add(bigN, -1), bigN, add(bigN, 1), add(big2_256, -1), half, add(half, 1), pow2(255), add(pow2(255), -1), pow2(248), add(pow2(248), -1)}
 	for i := 0; i < c.scale(6, 60); i++ {
 		vals = append(vals, randBig(rng, bigN))
+	}
+	// values >= n whose lower 64-bit limbs are BELOW n's (a limb-by-limb comparison gets these wrong), and anywhere in [n, 2^256)
+	vals = append(vals, new(big.Int).Sub(big2_256, pow2(64)), add(new(big.Int).Sub(big2_256, pow2(128)), 1), add(new(big.Int).Add(bigN, pow2(64)), -1),
+		new(big.Int).Sub(new(big.Int).Add(bigN, pow2(128)), pow2(64)))
+	for i := 0; i < c.scale(3, 20); i++ {
+		vals = append(vals, new(big.Int).Add(bigN, randBig(rng, new(big.Int).Sub(big2_256, bigN))))
 	}
 	// build-then-parse on every canonical pair from a subset
 	for i, r := range vals {
@@ -361,7 +381,7 @@ func driveWire(c *ctx) {
 		}
 	}
 	// ---- random and mutated byte strings of length 0..80, through every parser
-	good := secec.BuildASN1Signature(scFrom(vals[len(vals)-1]), scFrom(vals[len(vals)-2]))
+	good := secec.BuildASN1Signature(scFrom(add(randBig(rng, add(bigN, -1)), 1)), scFrom(add(randBig(rng, add(bigN, -1)), 1)))
 	for i := 0; i < c.scale(1500, 40000); i++ {
 		var b []byte
 		switch i % 4 {
